@@ -268,11 +268,21 @@ func itoa(i int) string {
 	return string(b)
 }
 
+// repoRoot is the checkout whose test inputs are used as seeds (VERIF_REPO
+// when the check runs against another tree).
+func repoRoot() string {
+	if r := os.Getenv("VERIF_REPO"); r != "" {
+		return strings.TrimSuffix(r, "/")
+	}
+	return "/repo"
+}
+
 // repoSeeds: the repo's own test inputs (data files plus the inline inputs of
 // the ztests of the readers).  Deterministic order; small ones only.
 func repoSeeds(maxLen, maxCount int) ([]Seed, []string) {
 	var seeds []Seed
-	for _, p := range []string{"/repo/zson/test.zson", "/repo/docs/tutorials/prs.zng", "/repo/lake/testdata/babble-mergelargestchunk2.zson", "/repo/zio/parquetio/ztests/conn.parquet"} {
+	root := repoRoot()
+	for _, p := range []string{root + "/zson/test.zson", root + "/docs/tutorials/prs.zng", root + "/lake/testdata/babble-mergelargestchunk2.zson", root + "/zio/parquetio/ztests/conn.parquet"} {
 		b, err := os.ReadFile(p)
 		if err != nil || len(b) == 0 {
 			continue
@@ -281,10 +291,10 @@ func repoSeeds(maxLen, maxCount int) ([]Seed, []string) {
 			b = b[:maxLen]
 		}
 		f := strings.TrimPrefix(filepath.Ext(p), ".")
-		seeds = append(seeds, Seed{Name: "repo:" + strings.TrimPrefix(p, "/repo/"), Format: f, Data: b, Binary: f == "zng" || f == "parquet"})
+		seeds = append(seeds, Seed{Name: "repo:" + strings.TrimPrefix(p, root+"/"), Format: f, Data: b, Binary: f == "zng" || f == "parquet"})
 	}
 	var yamls []string
-	for _, dir := range []string{"/repo/zio", "/repo/zson", "/repo/vng", "/repo/compiler/ztests", "/repo/runtime/sam/expr/ztests"} {
+	for _, dir := range []string{root + "/zio", root + "/zson", root + "/vng", root + "/compiler/ztests", root + "/runtime/sam/expr/ztests"} {
 		filepath.Walk(dir, func(p string, info os.FileInfo, err error) error {
 			if err == nil && !info.IsDir() && strings.HasSuffix(p, ".yaml") {
 				yamls = append(yamls, p)
@@ -302,7 +312,7 @@ func repoSeeds(maxLen, maxCount int) ([]Seed, []string) {
 		}
 		blocks, qs := yamlBlocks(string(b))
 		queries = append(queries, qs...)
-		if !strings.HasPrefix(p, "/repo/zio") && !strings.HasPrefix(p, "/repo/zson") && !strings.HasPrefix(p, "/repo/vng") {
+		if !strings.HasPrefix(p, root+"/zio") && !strings.HasPrefix(p, root+"/zson") && !strings.HasPrefix(p, root+"/vng") {
 			continue
 		}
 		for i, blk := range blocks {
@@ -322,7 +332,7 @@ func repoSeeds(maxLen, maxCount int) ([]Seed, []string) {
 			case strings.Contains(p, "lineio"):
 				f = "line"
 			}
-			seeds = append(seeds, Seed{Name: "repo:" + strings.TrimPrefix(p, "/repo/") + "#" + itoa(i), Format: f, Data: []byte(blk)})
+			seeds = append(seeds, Seed{Name: "repo:" + strings.TrimPrefix(p, root+"/") + "#" + itoa(i), Format: f, Data: []byte(blk)})
 			n++
 		}
 	}
